@@ -14,6 +14,10 @@ def step_text(st):
         if st["driver"] == "pscalar":
             return "driver `pscalar`, %d events → %s" % (st["n"], st.get("module", "TraceFlat"))
         return "driver `%s` over %d types, %d events → %s" % (st["driver"], len(st["types"]), st["n"], st.get("module", "TraceFlat"))
+    if t == "apalache":
+        return "Apalache inductive invariant %s (%d obligations)" % (st["module"], len(st["obligations"]))
+    if t == "tlaps":
+        return "TLAPS proof %s" % st["module"]
     if t == "negative":
         return "negative catalog (compile-fail)"
     name = "%s/%s" % (st["module"], os.path.splitext(st["cfg"])[0])
